@@ -97,12 +97,22 @@ func convertToString(val reflect.Value, options multiTag) (string, error) {
 			return "", err
 		}
 
+		// A base of 0 (the base is taken from the prefix of the text) can be
+		// parsed with but not formatted with
+		if base < 2 || base > 36 {
+			base = 10
+		}
+
 		return strconv.FormatInt(val.Int(), base), nil
 	case reflect.Uint, reflect.Uint8, reflect.Uint16, reflect.Uint32, reflect.Uint64:
 		base, err := getBase(options, 10)
 
 		if err != nil {
 			return "", err
+		}
+
+		if base < 2 || base > 36 {
+			base = 10
 		}
 
 		return strconv.FormatUint(val.Uint(), base), nil
